@@ -71,10 +71,25 @@ def shards(tier):
     return out
 
 
+def _nan_eq(a, b):
+    """equality of nested python values in which NaN equals NaN"""
+    if isinstance(a, (list, tuple)) and isinstance(b, (list, tuple)):
+        return len(a) == len(b) and all(_nan_eq(x, y) for x, y in zip(a, b))
+    if isinstance(a, dict) and isinstance(b, dict):
+        return a.keys() == b.keys() and all(_nan_eq(a[k], b[k]) for k in a)
+    if isinstance(a, float) and isinstance(b, float):
+        return a == b or (a != a and b != b)
+    if isinstance(a, mpf) and isinstance(b, mpf):
+        return a == b or (mpmath.isnan(a) and mpmath.isnan(b))
+    return type(a) is type(b) and a == b
+
+
 def _same(a, b):
-    """bit-identical values / identical structures"""
+    """bit-identical values / identical structures (NaN equals NaN)"""
     if isinstance(a, (ak.Array, ak.Record)) or isinstance(b, (ak.Array, ak.Record)):
-        return type(a) is type(b) and ak.to_list(a) == ak.to_list(b) and str(ak.type(a)) == str(ak.type(b))
+        return type(a) is type(b) and _nan_eq(ak.to_list(a), ak.to_list(b)) and str(ak.type(a)) == str(ak.type(b))
+    if isinstance(a, (list, tuple, mpf)) or isinstance(b, (list, tuple, mpf)):
+        return _nan_eq(a, b)
     if isinstance(a, np.ndarray) or isinstance(b, np.ndarray):
         return type(a) is type(b) and a.dtype == b.dtype and a.shape == b.shape and a.tobytes() == b.tobytes()
     if isinstance(a, vector.Vector) or isinstance(b, vector.Vector):
